@@ -74,6 +74,12 @@ func (b *block) seek(cmp comparer.Comparer, rstart, rlimit int, key []byte) (ind
 		// The smallest key is greater-than key sought.
 		index = rstart
 	}
+	if index >= b.restartsLen {
+		// Empty restart range (the slice starts after the last restart
+		// point): there is no entry to seek to, not even a restart slot.
+		offset = b.restartsOffset
+		return
+	}
 	offset = int(binary.LittleEndian.Uint32(b.data[b.restartsOffset+4*index:]))
 	return
 }
